@@ -558,6 +558,35 @@ Theorem C14_cell_follows_rows : forall ST st c st' a m b i cols,
   m_id (g_cells st' (xa_stmt a)) = Some i.
 Proof. exact cell_follows_rows. Qed.
 
+(* … and the counterpart for re-preparations: after a PREPARED with the statement's id that announces
+   metadata id i was delivered to a re-preparing call (execute or batch loop), the cell holds i —
+   except under the non-destructive rule (announcement without columns, cell with columns), where the
+   cell is untouched.  Every interleaving, any server. *)
+Theorem C14_cell_follows_reprepare : forall ST st c st' s pm i,
+  gstep ST st (GL_resp c (RPrepared (s_id (ST s)) pm)) = Some st' ->
+  (exists a, k_st (g_calls st c) = CS_prep a /\ xa_stmt a = s) \/ (exists b, k_st (g_calls st c) = CS_bprep b s) ->
+  m_id pm = Some i ->
+  (m_count (g_cells st s) = 0 \/ m_count pm <> 0 -> m_id (g_cells st' s) = Some i) /\
+  (m_count (g_cells st s) <> 0 -> m_count pm = 0 -> g_cells st' s = g_cells st s).
+Proof. exact cell_follows_reprepare. Qed.
+
+(* its hypotheses in the re-preparation of exHist1: call 1 is in CS_prep, the PREPARED in its inbox
+   has the statement's id and announces [7;2]; after the delivery the cell holds [7;2] *)
+Example C14_ex_cell_follows_reprepare :
+  match srun exD exST 1 (sinit (exInit true) (exNodes true)) (firstn 9 exHist1),
+        srun exD exST 1 (sinit (exInit true) (exNodes true)) (firstn 10 exHist1) with
+  | Some st, Some st' =>
+      match k_st (g_calls (s_g st) 1), s_inbox st 1 with
+      | CS_prep a, Some (RPrepared id pm, _, _) =>
+          (xa_stmt a =? 0)%nat && bytes_eqb id (s_id (exST 0)) && obytes_eqb (m_id pm) (Some [7;2]) &&
+          negb (m_count pm =? 0) && obytes_eqb (m_id (g_cells (s_g st) 0)) (Some [7;1]) &&
+          obytes_eqb (m_id (g_cells (s_g st') 0)) (Some [7;2])
+      | _, _ => false
+      end
+  | _, _ => false
+  end = true.
+Proof. vm_compute. reflexivity. Qed.
+
 (* the history on which the code before 75c6d7e ended with the OLD id in the cell: call 0 is served
    while the node has the old schema (rows without metadata), the schema changes, call 1 is
    answered with METADATA_CHANGED + new id, then call 0's answer arrives.  Now nothing is written
@@ -897,3 +926,4 @@ Print Assumptions C14_prepare_on_all.
 Print Assumptions C14_prep_accept_sound.
 Print Assumptions C14_batch_loop_unbounded.
 Print Assumptions C14_session_prep_accept_sound.
+Print Assumptions C14_cell_follows_reprepare.
